@@ -19,12 +19,12 @@ RULE = ('seeded connect() histories: 0..4 keys drawn from four fixture key pairs
         'SHA-1 digest, pure-integer check against the fixture public numbers) and the host packet log is compared with a reference handshake model. '
         'non-trivial = >= 2 keys offered and >= 1 signature rejected; distinct = event-log digests')
 ASSUMPTIONS = ['fixture keys were generated with `cryptography`, independently of adb_shell.auth.keygen', 'auth_timeout_s=None with a silent device is excluded (documented wait-forever)']
-EXPECT_PROBES = {'all': ['c05_pubkey_offered', 'c05_key_accepted', 'c05_bad_challenge', 'c05_no_keys', 'c05_reconnect', 'c05_callback', 'c05_silent_pubkey', 'auth_rechallenge_after_pubkey', 'auth_silent_after_signature', 'c05_auth_timeout_none', 'c05_banner_not_utf8', 'c05_maxdata_above_1mib', 'stray_before_answer',
+EXPECT_PROBES = {'all': ['c05_pubkey_offered', 'c05_key_accepted', 'c05_bad_challenge', 'c05_no_keys', 'c05_reconnect', 'c05_callback', 'c05_silent_pubkey', 'auth_rechallenge_after_pubkey', 'auth_silent_after_signature', 'c05_auth_timeout_none', 'c05_banner_not_utf8', 'c05_maxdata_above_1mib', 'c05_pubkey_non_ascii_comment', 'stray_before_answer',
                          'c05_signer_pycryptodome', 'c05_signer_cryptography', 'c05_signer_pythonrsa']}
 OWN = ('first-packet', 'signature-invalid', 'signature-order', 'signature-count', 'packet-after-cnxn', 'pubkey-early', 'pubkey-wrong', 'pubkey-missing', 'callback-count',
        'wrong-result', 'wrong-exception', 'missing-exception', 'unexpected-exception', 'timeout-instead-of-result', 'available-wrong', 'maxdata-wrong', 'auth-wait-short',
        'hang', 'no-termination', 'wrte-over-maxdata')
-SIGNERS = ['pythonrsa', 'cryptography', 'pycryptodome']
+SIGNERS = ['pythonrsa', 'cryptography', 'pycryptodome', 'pythonrsa_u']
 _PUBTXT = {}
 
 
@@ -85,7 +85,10 @@ def generate(seed, tier):
         # a device that takes more per message than the host's own 1 MiB: that is the device's limit, and it is adopted as announced
         d['maxdata'] = g.pick([2097152, 3145728])
         ops[-1]['content'] = {'seed': 5, 'size': d['maxdata'] + g.pick([100000, 300000]), 'alpha': 'zero'}
-    if g.chance(0.15):
+    if g.chance(0.12):
+        # whatever the device calls itself in its CNXN payload (no state prefix, an unknown state, nothing at all): a CNXN is a CNXN
+        d['banner_hex'] = g.pick([b'', b'\x00', b'device\x00', b'emulator-5554\x00', b'Device::ro.product.name=x', b'offline::', b'unauthorized::x', b'host::features=cmd']).hex() or '00'
+    elif g.chance(0.15):
         d['banner_hex'] = g.pick([b'device::ro.product.model=Caf\xe9 Phone;ro.product.name=x', b'device::\xff\xfe\x00\x80binary', b'device::ro.product.model=\xc4\xe3\xba\xc3;features=cmd\x00\xc3']).hex()
     cfg = {'frag': g.pick(['whole', 'mixed', 'boundary']), 'call_cost': 1e-5, 'idle_cost': 0.05}
     scn = {'api': g.pick(['sync', 'async']), 'transport': 'mem', 'device': d, 'config': cfg, 'actors': [ops], 'object': {'banner': banner}}
@@ -219,6 +222,9 @@ def evaluate(case, tapes=None):
                 pr['c05_pubkey_offered'] = 1
                 blob = sess['pubkey']
                 want_blob = pubtext(keys[0][0]) + b'\0' if keys else None
+                if keys and keys[0][1] == 'pythonrsa_u':
+                    want_blob = pubtext(keys[0][0]).split(b' ')[0] + ' j\u00fcrgen@b\u00fcro-pc'.encode('utf8') + b'\0'
+                    pr['c05_pubkey_non_ascii_comment'] = 1
                 ok = False
                 try:
                     n, e = android_pubkey_numbers(blob.split(b' ')[0].rstrip(b'\0'))
